@@ -383,6 +383,8 @@ def check(model, tier):
     merge.r05_1_simplify_discipline(ctx, rule="R01.7")
     triviality.r05_2_noop_predicates_agree(ctx, rule="R01.8")
     merge.r05_4_then(ctx, rule="R01.9")
+    merge.r05_5_operations_stored_as_given(ctx, rule="R01.14")
+    merge.r05_6_who_may_elide(ctx, rule="R01.15")
     structure.r06_1_flags(ctx, rule="R01.10")
     expressions.r13_1_as_trivial(ctx, rule="R01.13")
     mutation.r09_4_no_shared_mutation(ctx)
